@@ -45,9 +45,17 @@ deriving DecidableEq, Repr
 def Arg.tok : Arg → Tok
   | .field _ _ t => t | .err t => t | .str s => s | .int t => t | .nil => Bytes.ofString "nil" | .val _ t => t
 
+/-- an error value may implement more than `error`; the harness marks such values in their text:
+    "EO:" also an ObjectMarshaler, "EA:" also an ArrayMarshaler (anything else: a plain error or error+Stringer).
+    `zap.Any` tests the marshaler interfaces before `error`, and `error` before `fmt.Stringer`. -/
+def errAnyType (t : Tok) : FT :=
+  if t.take 3 = [69, 79, 58] then .objectMarshaler
+  else if t.take 3 = [69, 65, 58] then .arrayMarshaler
+  else .error
+
 /-- representation `zap.Any(k, a)` chooses for `a` -/
 def Arg.anyType : Arg → FT
-  | .field .. => .reflect | .err _ => .error | .str _ => .string | .int _ => .int64 | .nil => .reflect
+  | .field .. => .reflect | .err t => errAnyType t | .str _ => .string | .int _ => .int64 | .nil => .reflect
   | .val vk _ => vk.anyType
 
 /-- an output field -/
